@@ -48,6 +48,20 @@ CLAIMS = {
              "errors in 4 placements, uncaught throws surfacing as JSError, and line/column shift invariance.",
         technique="differential symbolic execution vs definitional interpreter (CrossHair/z3)",
         design_ref="DESIGN.md section 4 (C07)"),
+    "C08": dict(
+        text="Differential execution of the real VM against the object model of the definitional interpreter. (1) Object histories: "
+             "a prelude builds a three-level prototype chain, a constructor with a prototype and an instance; every step is a "
+             "solver-chosen (operation, target, key) out of 20 operations (set, delete, getter/setter definition, defineProperty, "
+             "write-through, setPrototypeOf, Object.create, constructor prototype replacement, function properties, __proto__ "
+             "literals, compound assignment to inherited properties, constructor return) - all single steps exhaustively and all "
+             "operation pairs on representative targets; after EVERY step every observation (read, in, hasOwnProperty, keys, "
+             "for-in, values/entries, getPrototypeOf, instanceof) on EVERY object of the graph is compared. (2) 10 function kinds x "
+             "22 call forms and 42 constructor/prototype/accessor programs: this, arguments, length, name, instanceof, prototype "
+             "link, constructor return rule, bound functions, lexical this/arguments of arrows. (3) One-step get/set/in/delete with "
+             "the key any string of length <= 2 (symbolic) against an own-first chain walk.",
+        technique="differential execution vs the definitional interpreter over solver-indexed operation histories + symbolic "
+                  "property keys through the real _get/_set/_delete_property (CrossHair/z3)",
+        design_ref="DESIGN.md section 4 (C08)"),
     "C09": dict(
         text="Differential symbolic execution of the real regex engine (parser and compiler on a concrete pattern, the "
              "matching VM on a symbolic subject) against a transcription of the ECMA-262 22.2.2 continuation-passing "
